@@ -101,6 +101,9 @@ def check_elision(ctx: Ctx, rule: str = "R06.b"):
             const_tests = [("not", ("attr", bv, "free_symbols")), ("attr", bv, "is_number"), ("attr", bv, "is_Number"), ("attr", bv, "is_constant")]
             if k[0] == "not" and k[1][0] == "bool" and k[1][1] == "and" and set(k[1][2]) in [{ct, nz} for ct in const_tests]:
                 return True, ""
+            # the same test written as a conditional: (False if <has free symbols> else is_nonzero)
+            if k[0] == "not" and k[1][0] == "if" and k[1][2] == av.C(False) and k[1][3] == nz and av.mk_not(k[1][1]) in const_tests:
+                return True, ""
             return False, f"a factor is skipped unless `{av.show(k)}`; it may only be skipped when it has no free symbols AND is_nonzero"
         return None, f"the remaining factors are {av.show(seq)[:100]}"
 
